@@ -349,6 +349,10 @@ def handle (line : String) : String :=
   | "SPLIT" :: rest => handleSplit rest
   | "RUN" :: rest => handleRun rest
   | "TABLE" :: rest => handleTable rest
+  | "CHARWIDTH" :: cps :: _ =>
+    String.intercalate " " ("W" :: (toks cps).map (fun t => match t.toNat? with
+      | some n => toString (Pretty.charWidth (Char.ofNat n))
+      | none => "?"))
   | "TERM" :: rest => handleTerm rest
   | "TERMR" :: rest => handleTermR rest
   | "SCHED" :: rest => Ag.Sched.handleSched rest
